@@ -853,6 +853,10 @@ func (c *Ctx) atomFalseAt(a Atom, rk string, rv int64) (isFalse bool, known bool
 		}
 		return !res, true
 	case "call":
+		if strings.HasPrefix(a.Subj, "unicode.Is") && a.Val == rk && rv < 0 {
+			// the unicode range predicates are false for every negative rune
+			return a.Pos, true
+		}
 		if a.Fn == nil || a.Val != rk || !inModule(a.Fn) {
 			return false, false
 		}
@@ -2016,4 +2020,144 @@ func ruleLEXMINUS(c *Ctx, r *Report) {
 		r.ok(rule, "minus", c.pos(disp.Pos()), fmt.Sprintf("%d conditions on the '-' paths, all on the dispatched rune or the one-rune look-ahead", n))
 	}
 	r.floor(rule, "look-ahead conditions on the '-' paths", n, 1)
+}
+
+// LEX-BACKUP (C16): a backup undoes the read it is paired with.
+func ruleLEXBACKUP(c *Ctx, r *Report) {
+	const rule = "LEX-BACKUP"
+	r.doc(rule, "typestate of the rune cursor in every state function (helpers that take the lexer read in place): reads push, a backup pops the most recent read; every read made after the popped one and before the backup is known not to have hit end of input (a positive test on its rune that is false for eof). The end-of-input flag is sticky and turns every later backup into a no-op, so a look-ahead that may reach the end between a read and the backup meant to undo it leaves the cursor past a rune that was to be re-read — the state entered next then takes end of input for its opening delimiter")
+	lr := c.lexPreamble(r, rule)
+	if lr == nil {
+		return
+	}
+	nB := 0
+	type seq struct {
+		instrs []ssa.Instruction
+		atoms  []Atom
+		what   string
+	}
+	// helpers that return a rune (a look-ahead such as peek = read + backup) are read in place as well
+	opts := c.lexInl(lr, false)
+	basePred := opts.Pred
+	opts.Pred = func(g *ssa.Function) bool {
+		if basePred(g) {
+			return true
+		}
+		if opts.Keep[g] || g.Signature.Results().Len() != 1 || basicKind(g.Signature.Results().At(0).Type()) != types.Int32 {
+			return false
+		}
+		for _, p := range g.Params {
+			t := p.Type()
+			if pt, ok := t.(*types.Pointer); ok {
+				t = pt.Elem()
+			}
+			if types.Identical(t, lr.Lexer) {
+				return true
+			}
+		}
+		return false
+	}
+	for _, s := range lr.States {
+		var seqs []seq
+		paths, complete := c.enumPathsOpt(s, 5000, opts)
+		if !complete {
+			r.bad(rule, fnName(s)+"|paths", c.pos(s.Pos()), "too many paths")
+			continue
+		}
+		for _, p := range paths {
+			seqs = append(seqs, seq{p.Instrs, p.Atoms, "path from entry"})
+		}
+		cps, _ := c.cyclePathsOpt(s, opts)
+		for _, cp := range cps {
+			seqs = append(seqs, seq{cp.instrs, cp.atoms, "loop iteration"})
+		}
+		reported := map[string]bool{}
+		for _, sq := range seqs {
+			type read struct {
+				call  *ssa.Call
+				later []*ssa.Call
+			}
+			var stack []*read
+			occurs := map[*ssa.Call]int{}
+			for _, in := range sq.instrs {
+				call, ok := in.(*ssa.Call)
+				if !ok {
+					continue
+				}
+				switch call.Call.StaticCallee() {
+				case lr.Advance:
+					occurs[call]++
+					for _, x := range stack {
+						x.later = append(x.later, call)
+					}
+					stack = append(stack, &read{call: call})
+				case lr.Backup:
+					nB++
+					key := fmt.Sprintf("%s|backup@%s", fnName(s), c.siteOf(call))
+					if len(stack) == 0 {
+						if sq.what == "path from entry" && !reported[key+"|unpaired"] {
+							reported[key+"|unpaired"] = true
+							r.bad(rule, key+"|unpaired", c.instrPos(call), fnName(s)+" steps the cursor back before it has read anything: the rune it un-reads belongs to a token that was already emitted")
+						}
+						continue
+					}
+					x := stack[len(stack)-1]
+					stack = stack[:len(stack)-1]
+					bad := ""
+					for _, y := range x.later {
+						if !c.readNotEOF(lr, y, occurs[y], sq.atoms) {
+							bad = c.instrPos(y)
+						}
+					}
+					if bad == "" {
+						if !reported[key] {
+							r.ok(rule, key, c.instrPos(call), "pairs with the read at "+c.instrPos(x.call)+"; no read that may hit end of input in between")
+							reported[key] = true
+						}
+					} else if !reported[key+"|eof"] {
+						reported[key+"|eof"] = true
+						r.bad(rule, key+"|eof-between", c.instrPos(call), fmt.Sprintf("in %s (%s) this backup is meant to undo the read at %s, but the read at %s in between may hit end of input (nothing on the path shows its rune is a real character): the sticky end-of-input flag then makes the backup a no-op, the cursor stays past the rune, and the next state reads end of input where it expects that rune", fnName(s), sq.what, c.instrPos(x.call), bad))
+					}
+				}
+			}
+		}
+	}
+	r.floor(rule, "backup calls on state-function paths", nB, 4)
+}
+
+// siteOf: file-independent identification of a call site: enclosing function and ordinal of the call among
+// the calls of the same callee in it.
+func (c *Ctx) siteOf(call *ssa.Call) string {
+	fn := call.Parent()
+	n := 0
+	for _, b := range fn.Blocks {
+		for _, in := range b.Instrs {
+			if k, ok := in.(*ssa.Call); ok && k.Call.StaticCallee() == call.Call.StaticCallee() {
+				n++
+				if k == call {
+					return fmt.Sprintf("%s#%d", fnName(fn), n)
+				}
+			}
+		}
+	}
+	return fnName(fn)
+}
+
+// readNotEOF: some condition on the path that mentions exactly this read is false when the rune is eof.
+func (c *Ctx) readNotEOF(lr *LexRoles, y *ssa.Call, occurrences int, atoms []Atom) bool {
+	if occurrences != 1 {
+		return false
+	}
+	for _, a := range atoms {
+		calls := c.impureCallsIn(a.Src, a.Env, 0)
+		if len(calls) != 1 || calls[0] != y {
+			continue
+		}
+		for _, rk := range []string{c.key(y, a.Env), c.key(y, nil), fnName(lr.Advance) + "($0)"} {
+			if f, known := c.atomFalseAt(a, rk, -1); known && f {
+				return true
+			}
+		}
+	}
+	return false
 }
